@@ -13,11 +13,11 @@ SCR=$(mktemp -d /dev/shm/verif-build.XXXXXX) || exit 2
 trap 'rm -rf "$SCR"' EXIT
 PORC=$(ls -d $(go env GOMODCACHE)/github.com/anishathalye/porcupine@v1.3.0 2>/dev/null | head -1)
 [ -d "$PORC" ] || { echo "build: porcupine v1.3.0 not found in the module cache" >&2; exit 2; }
-$V/bin/instrument -repo $REPO -out $SCR -overlaysrc $V/overlay -porcupine "$PORC" "$@" || { echo "build: instrumentation failed" >&2; exit 2; }
+$V/bin/instrument -repo $REPO -out $SCR -overlaysrc $V/overlay -porcupine "$PORC" -modcache "$(go env GOMODCACHE)" "$@" || { echo "build: instrumentation failed" >&2; exit 2; }
 cp $REPO/go.mod $SCR/go.mod && cp $REPO/go.sum $SCR/go.sum || exit 2
 mkdir -p $(dirname $OUT) $V/evidence
 cp $SCR/instrument_stats.json $OUT.stats.json
-if ! go build -C $REPO -modfile=$SCR/go.mod -overlay=$SCR/overlay.json -trimpath -o $OUT ${VERIF_MAIN:-./zzverif/cmd/verifsim} 2>$SCR/build.log; then
+if ! GODEBUG=goindex=0 go build -C $REPO -modfile=$SCR/go.mod -overlay=$SCR/overlay.json -trimpath -o $OUT ${VERIF_MAIN:-./zzverif/cmd/verifsim} 2>$SCR/build.log; then
   echo "build: go build failed:" >&2; head -50 $SCR/build.log >&2; exit 2
 fi
 exit 0
